@@ -48,6 +48,9 @@ MALFORMED = [
  ('buck4_spline-missing-r_min', model({('Pair', 'O-O'): 'spline(as.bornmayer 1000.0 0.3 >=0.8 buck4_spline >=1.4 as.buck 0 1 32.0)'})),
  ('buck4_spline-r_min-above-attach', model({('Pair', 'O-O'): 'spline(as.bornmayer 1000.0 0.3 >=0.8 buck4_spline 5.0 >=1.4 as.buck 0 1 32.0)'})),
  ('buck4_spline-r_min-below-detach', model({('Pair', 'O-O'): 'spline(as.bornmayer 1000.0 0.3 >=0.8 buck4_spline 0.2 >=1.4 as.buck 0 1 32.0)'})),
+ ('trans-modifier-as-shift', model({('Pair', 'O-O'): 'trans(as.buck 1000.0 0.3 32.0, sum(as.constant 1.0, as.constant 2.0))'})),
+ ('trans-shift-with-two-parameters', model({('Pair', 'O-O'): 'trans(as.buck 1000.0 0.3 32.0, as.constant 1.0 2.0)'})),
+ ('trans-one-argument', model({('Pair', 'O-O'): 'trans(as.buck 1000.0 0.3 32.0)'})),
  ('spline-modifier-as-spline-type', model({('Pair', 'O-O'): 'spline(as.bornmayer 1000.0 0.3 >=0.8 sum(as.constant 1.0, as.constant 2.0) >=1.4 as.buck 1000.0 0.3 32.0)'})),
  ('spline-ranges-out-of-order', model({('Pair', 'O-O'): 'spline(as.zbl 8 8 >=1.8 exp_spline >=1.4 as.buck 1000.0 0.3 32.0)'})),
  ('trans-without-constant', model({('Pair', 'O-O'): 'trans(as.buck 1000.0 0.3 32.0, as.zero)'})),
@@ -73,6 +76,7 @@ DOCUMENTED_TARGETS = ['LAMMPS', 'DLPOLY', 'DL_POLY', 'GULP', 'excel', 'setfl', '
 VALID = [('base', model()), ('eam', EAM), ('fs', FS),
          ('table-cubic_spline', model({('Pair', 'O-O'): 'tab'}, extra=[('Table-Form:tab', [('interpolation', 'cubic_spline'), ('x', '0 1 2 3 4'), ('y', '1 2 3 4 5')])])),
          ('spline-exp', model({('Pair', 'O-O'): 'spline(as.zbl 8 8 >=0.8 exp_spline >=1.4 as.buck 1000.0 0.3 32.0)'})),
+         ('trans-of-a-modifier', model({('Pair', 'O-O'): 'trans(sum(as.buck 1000.0 0.3 32.0, as.constant 1.0), as.constant 0.5)'})),
          ('spline-modifier-start', model({('Pair', 'O-O'): 'spline(sum(as.bornmayer 1000.0 0.3, as.constant 1.0) >=0.8 exp_spline >=1.4 as.buck 1000.0 0.3 32.0)'})),
          ('spline-modifier-end', model({('Pair', 'O-O'): 'spline(as.bornmayer 1000.0 0.3 >=0.8 exp_spline >=1.4 sum(as.buck 1000.0 0.3 32.0, as.constant 1.0))'})),
          ('spline-buck4-modifier-both-ends', model({('Pair', 'O-O'): 'spline(product(as.bornmayer 1000.0 0.3, as.constant 1.0) >=0.8 buck4_spline 1.1 >=1.4 sum(as.buck 0 1 32.0, as.constant 0.0))'})),
